@@ -59,7 +59,29 @@ def pubsubfree(prof, quick, thorough):
             "shards": {"quick": 8, "thorough": 16}, "env": {"VKIT_PROFILE": prof}, "stall_sig": prof + "/stall"}
 
 
+EXCL_MODEL = ("rapid state machine over bigbuff.Exclusive in a synctest bubble: rules call(style in Call/CallAfter/CallAsync/CallAfterAsync/Start/StartAfter/"
+              "CallWithOptions(work func, optional start flag, optional ExclusiveRateLimit wrapper, optional skip-resolve), key in 1-3 keys incl. nil, wait in {-1,0,1ms,1h}), "
+              "resolve(e)/return(e) gates of running work functions, advance(virtual time); every work function is a harness closure stamping start/resolve/return on a logical clock. "
+              "Oracle: per-key executions never overlap (checked at the moment a work function starts; rate-limited executions keep the key for their minimum duration), the execution "
+              "answering a call is the first one of its key begun after the call; calls complete at quiescence iff it has resolved, outcome equality, exactly one outcome then closed "
+              "channel, resolve-not-called, no closure executed twice, executions <= calls, an execution is under way whenever calls wait and nothing holds them back, drain at the end "
+              "(all answered, key map empty, fresh calls run fresh executions, no goroutine left). ")
+
+
+def exclstep(prof, quick, thorough):
+    return {"name": "exclstep", "test": "TestExclStep", "steps": 40, "checks": {"quick": quick, "thorough": thorough},
+            "shards": {"quick": 8, "thorough": 16}, "env": {"VKIT_PROFILE": prof}}
+
+
 CONFIG = {
+    "C09": {
+        "rule": EXCL_MODEL + "non-trivial = >=2 executions on one key with a call arriving in a resolve->return gap, or two keys with work functions open at once; distinct = hash of the op trace.",
+        "jobs": [exclstep("C09", 16000, 600000)],
+    },
+    "C10": {
+        "rule": EXCL_MODEL + "non-trivial = an execution answering >=2 calls of different styles, or a skip-resolve execution with a waiter; distinct = hash of the op trace.",
+        "jobs": [exclstep("C10", 16000, 600000)],
+    },
     "C06": {
         "rule": PUBSUB_FREE + "non-trivial = an unsubscribe overlapping a Send in logical time, or >=2 senders whose Sends overlapped; distinct = hash of the generated program.",
         "jobs": [pubsubfree("C06", 60000, 3000000)],
